@@ -93,7 +93,7 @@ const ADDRS: &[&str] = &["10.0.0.1", "192.168.1.7", "::1", "2001:db8::1", "::fff
 const DATETIMES: &[&str] = &["2024-06-01T12:00:00Z", "2020-01-01T00:00:00+02:00", "1969-12-31T23:59:59Z", "2024-02-29T00:00:00Z", "2024-02-30T00:00:00Z", "9999-12-31T23:59:59Z", "+262142-12-31T23:59:59Z", "+262143-12-31T23:59:59Z", "-262143-01-01T00:00:00Z", "-262144-01-01T00:00:00Z", "2024-01-01T00:00:60Z", "2024-01-01 00:00:00", "0000-01-01T00:00:00+23:59", "2024-06-01T12:00:00.999999999Z", "2024-06-01T12:00:00.9999999999Z", "", "x", "2024", "2024-06-01", "2024-06-01T25:00:00Z", "2024-06-01T12:00:00", "2024-06-01T12:00:00+99:99", "0", "é", "2024-06-01T12:00:00Z "];
 const TIMES: &[&str] = &["12:00", "12:00:00", "00:00:00", "23:59:59", "23:59:60", "24:00:00", "", "x", "12", "12:60", "12:00:00.5", "-1:00", "12:00:00Z", "é", " 12:00"];
 const WEEKDAYS: &[&str] = &["monday", "Mon", "MON", "tue", "wednesday", "thu", "fri", "sat", "sunday", "", "funday", "sunday ", "1", "é", "mo"];
-const REGEXES: &[&str] = &["[0-9]+", "([0-9]+)", ".*", ".+?", "(?:.+?)", "(a|b)", "(cat|dog)", "[a-z]+", "([\\p{Ll}])+?", "([\\p{Ll}]|\\-)+?", "[0-9a-f]{8}", "a{2,3}", "é+", "(caf\u{e9}|x)", "", "(", ")", "[", "]", "a{99999}", "a{1000}{1000}", "(?P<n>", "(?P<id>x)", "(?P<a>.)(?P<a>.)", "\\", "*", "+", "?", "(?i)a", "(?<a>x)", "a**", "((((((((((x))))))))))", "\\p{Foo}", "\\d+", "\\b", "^a$", "$", "^", "a|", "|", "(?s).", "(?-u:\\xff)", "\\x{110000}", "[z-a]", "(?#c)", "@id", "@", "x{0}", "(?:)", "(()|())*", "\\pL", "[[:alpha:]]", "(?x) a b"];
+const REGEXES: &[&str] = &["[0-9]+", "([0-9]+)", ".*", ".+?", "(?:.+?)", "(a|b)", "(cat|dog)", "[a-z]+", "([\\p{Ll}])+?", "([\\p{Ll}]|\\-)+?", "[0-9a-f]{8}", "a{2,3}", "[a-z]+(?P<ext>\\.html)?", "(?:x(?P<alt>y)|[0-9]+)", "é+", "(caf\u{e9}|x)", "", "(", ")", "[", "]", "a{99999}", "a{1000}{1000}", "(?P<n>", "(?P<id>x)", "(?P<a>.)(?P<a>.)", "\\", "*", "+", "?", "(?i)a", "(?<a>x)", "a**", "((((((((((x))))))))))", "\\p{Foo}", "\\d+", "\\b", "^a$", "$", "^", "a|", "|", "(?s).", "(?-u:\\xff)", "\\x{110000}", "[z-a]", "(?#c)", "@id", "@", "x{0}", "(?:)", "(()|())*", "\\pL", "[[:alpha:]]", "(?x) a b"];
 const NAMES: &[&str] = &["id", "a", "ab", "abc", "b", "year", "month", "idx", "", "a.b", "a[0]", "é", "1", "a-b", "@", "a b", "_x", "ID", "sub", "n"];
 const HEADER_NAMES: &[&str] = &["X-A", "x-a", "X-B", "Location", "location", "Content-Type", "Content-Encoding", "User-Agent", "Referer", "X-Forwarded-For", "Forwarded", "Host", "", " ", "é", "X A", "x:y", "\u{0}", "Set-Cookie"];
 const HEADER_KINDS: &[&str] = &["is_defined", "is_not_defined", "is_equals", "is_not_equal_to", "contains", "does_not_contain", "ends_with", "starts_with", "match_regex", "bogus", ""];
@@ -126,12 +126,14 @@ fn pool_or_wild(rng: &R, pool: &[&str]) -> String {
 /// number of leading well-formed entries of the pools that have such a head
 fn head(pool: &[&str]) -> usize {
     let p = pool.as_ptr();
-    if p == PATHS.as_ptr() { 10 } else if p == HOSTS.as_ptr() { 3 } else if p == REGEXES.as_ptr() { 13 } else if p == DATETIMES.as_ptr() { 4 } else if p == TIMES.as_ptr() { 4 }
+    if p == PATHS.as_ptr() { 10 } else if p == HOSTS.as_ptr() { 3 } else if p == REGEXES.as_ptr() { 15 } else if p == DATETIMES.as_ptr() { 4 } else if p == TIMES.as_ptr() { 4 }
     else if p == WEEKDAYS.as_ptr() { 9 } else if p == IPS.as_ptr() { 7 } else if p == ADDRS.as_ptr() { 5 } else if p == URLS.as_ptr() { 5 } else if p == SELECTORS.as_ptr() { 4 } else { pool.len() }
 }
 fn sample_for(regex: &str) -> &'static str {
     match regex { "[0-9]+" => "12", "([0-9]+)" => "7", ".*" => "x/y", ".+?" => "abc", "(?:.+?)" => "q", "(a|b)" => "a", "(cat|dog)" => "dog", "[a-z]+" => "abc", "([\\p{Ll}])+?" => "é",
-                  "([\\p{Ll}]|\\-)+?" => "a-b", "[0-9a-f]{8}" => "deadbeef", "a{2,3}" => "aa", _ => "12" }
+                  "([\\p{Ll}]|\\-)+?" => "a-b", "[0-9a-f]{8}" => "deadbeef", "a{2,3}" => "aa",
+                  // named groups INSIDE a marker which a successful match can skip (the samples take the branch without them)
+                  "[a-z]+(?P<ext>\\.html)?" => "abc", "(?:x(?P<alt>y)|[0-9]+)" => "12", _ => "12" }
 }
 
 fn gen_bytes(rng: &R) -> Vec<u8> {
